@@ -707,6 +707,114 @@ def sequence_failures(case):
     return out
 
 
+# ---------------------------------------------------------------------------------------------------
+# nifty.re CorrelatedFieldMaker.finalize: harmonic transform of a product of >= 2 sub-grids (each sub-grid
+# along its own axes, factor 1/V_i), against coq/C09/ModelSeq.v [outer_ht] and an explicit Kronecker product
+# ---------------------------------------------------------------------------------------------------
+
+CF_SPECS = [
+    {"shapes": [[2], [4], [2, 2]], "dists": [[0.5], [0.25], [1.0, 0.5]], "conv": CONVS[0], "seed": 1},
+    {"shapes": [[2], [2], [4], [2]], "dists": [[1.0], [0.25], [0.5], [2.0]], "conv": CONVS[1], "seed": 2},
+    {"shapes": [[4, 2], [2], [2]], "dists": [[0.5, 0.5], [1.0], [0.25]], "conv": CONVS[1], "seed": 3},
+    {"shapes": [[4], [2, 2]], "dists": [[0.5], [0.25, 2.0]], "conv": CONVS[0], "seed": 4},
+    {"shapes": [[3], [2], [3, 2]], "dists": [[0.7], [1.3], [0.4, 0.9]], "conv": CONVS[0], "seed": 5},
+    {"shapes": [[2], [3], [2], [3]], "dists": [[0.6], [1.1], [0.3], [0.8]], "conv": CONVS[1], "seed": 6},
+]
+
+
+def cf_observe(spec):
+    """Columns of the linear map excitations -> field of the JAX model, divided by the coefficient
+    azm * outer normalised amplitude (which finalize's transform bookkeeping does not touch); and the
+    classic field for the same latent parameters."""
+    import nifty.re as jft
+    ift = quiet()
+    shapes, dists = spec["shapes"], spec["dists"]
+    with Conv(spec["conv"]):
+        jm = jft.CorrelatedFieldMaker("")
+        cm = ift.CorrelatedFieldMaker("")
+        jm.set_amplitude_total_offset(offset_mean=0.25, offset_std=(0.5, 0.1))
+        cm.set_amplitude_total_offset(0.25, (0.5, 0.1))
+        for i, (sh, d) in enumerate(zip(shapes, dists)):
+            kw = dict(scale=(1.0 + 0.1 * i, 0.1), cutoff=(0.8, 0.1), loglogslope=(-2.0, 0.2), prefix="g%d" % i)
+            jm.add_fluctuations_matern(tuple(sh), distances=tuple(d), renormalize_amplitude=False, **kw)
+            cm.add_fluctuations_matern(ift.RGSpace(tuple(sh), tuple(d)), **kw)
+        jcf = jm.finalize()
+        cf = cm.finalize()
+        rng = np.random.default_rng([int(spec["seed"]), 9])
+        pos = {k: rng.normal(size=tuple(v.shape)) for k, v in sorted(jcf.domain.items())}
+        xshape = tuple(pos["xi"].shape)
+        want = tuple(n for sh in shapes for n in sh)
+        out = {"xi_shape": list(xshape), "want_shape": list(want)}
+        if xshape != want:
+            return out
+        n = int(np.prod(xshape))
+
+        def field(xi):
+            p = dict(pos)
+            p["xi"] = np.asarray(xi, dtype=float).reshape(xshape)
+            return np.asarray(jcf(p))
+        f0 = field(np.zeros(n))
+        out["field_shape"] = list(f0.shape)
+        azm = float(jm.azm(pos))
+        coef = np.ones(())
+        for amp, g in zip(jcf.normalized_amplitudes, jm._target_grids):
+            a = np.asarray(amp(pos))[np.asarray(g.harmonic_grid.power_distributor)]
+            coef = np.tensordot(coef, a, axes=0)
+        coef = azm * coef.reshape(-1)
+        cols = np.stack([(field(np.eye(n)[j]) - f0).reshape(-1) / coef[j] for j in range(n)], axis=1)
+        out["cols"] = cols
+        out["vols"] = [float(g.total_volume) for g in jm._target_grids]
+        npos = ift.MultiField.from_dict({k: ift.makeField(cf.domain[k], np.array(v)) for k, v in pos.items()}, cf.domain)
+        out["diff_classic"] = float(np.abs(cf(npos).asnumpy() - np.asarray(jcf(pos))).max())
+        out["scale"] = float(max(1.0, np.abs(np.asarray(jcf(pos))).max()))
+    return out
+
+
+def cf_transform_failures(spec):
+    out = []
+    o = cf_observe(spec)
+    if o["xi_shape"] != o["want_shape"]:
+        return [("cf_excitation_shape", "excitations have shape %r instead of %r" % (o["xi_shape"], o["want_shape"]))]
+    if o["field_shape"] != o["want_shape"]:
+        out.append(("cf_field_shape", "field has shape %r instead of %r" % (o["field_shape"], o["want_shape"])))
+        return out
+    T = np.ones((1, 1))
+    for sh, d in zip(spec["shapes"], spec["dists"]):
+        V = float(np.prod(np.array(sh) * np.array(d)))
+        T = np.kron(T, hartley_matrix(sh, spec["conv"]) / V)
+    if np.abs(o["cols"] - T).max() > TOL * max(1.0, np.abs(T).max()):
+        out.append(("cf_transform_matrix", "harmonic transform of the product of %d sub-grids is not the Kronecker product of the "
+                    "per-sub-grid Hartley transforms / V_i (max dev %.3e)" % (len(spec["shapes"]), np.abs(o["cols"] - T).max())))
+    if o["diff_classic"] > 1e-10 * o["scale"]:
+        out.append(("cf_classic_vs_jax", "classic and JAX fields differ by %.3e on %d sub-grids" % (o["diff_classic"], len(spec["shapes"]))))
+    return out
+
+
+def cf_transform_terms(ctx):
+    rng = ctx.rng(97)
+    terms, meta = [], []
+    for spec in CF_SPECS:
+        if not all(n in (1, 2, 4) for sh in spec["shapes"] for n in sh):
+            continue
+        m = {"kind": "cf_transform", "what": "%d sub-grids" % len(spec["shapes"]), "spec": spec}
+        try:
+            o = cf_observe(spec)
+            if "cols" not in o:
+                raise ValueError("excitation shape %r" % (o["xi_shape"],))
+            n = o["cols"].shape[1]
+            js = list(range(n)) if (n <= 16 or not ctx.quick) else sorted(set([0, 1, n - 1] + [int(j) for j in rng.integers(0, n, size=9)]))
+            shapes = C.clist([cnats(sh) for sh in spec["shapes"]])
+            vols = C.clist([C.cq(float(v)) for v in o["vols"]])
+            for j in js:
+                terms.append("check_outer_ht %s %s %s %s %d%%nat %s" % (
+                    TOLP, C.cbool(spec["conv"] == CONVS[0]), shapes, vols, j, C.clist([C.cq(float(v)) for v in o["cols"][:, j]])))
+                meta.append(m)
+        except Exception as e:
+            terms.append("false")
+            meta.append(dict(m, error=repr(e)[:200]))
+    return terms, meta
+
+
 def case_failures(case):
     k = case.get("kind", "op")
     if k == "op":
@@ -721,6 +829,8 @@ def case_failures(case):
         return config_alias_failures()
     if k == "sequence":
         return sequence_failures(case)
+    if k == "cf_transform":
+        return cf_transform_failures(case["spec"])
     raise ValueError(k)
 
 
@@ -731,7 +841,8 @@ def signature(case, name):
         return {"fn": "sequence:" + "+".join(kinds), "check": name}
     fn = {"op": {"fft": "FFTOperator.apply", "hartley": "HartleyOperator.apply"}.get(case.get("op")),
           "backend": "ducc_dispatch/re.hartley", "sht": "SHTOperator.apply",
-          "smoothing": "HarmonicSmoothingOperator", "config": "nifty.config.update"}[k]
+          "smoothing": "HarmonicSmoothingOperator", "config": "nifty.config.update",
+          "cf_transform": "re.CorrelatedFieldMaker.finalize(harmonic transforms)"}[k]
     return {"fn": fn, "check": name}
 
 
@@ -838,15 +949,19 @@ class C09(C.Check):
         st, sm_ = sequence_terms(ctx)
         checks += st
         meta += sm_
+        ct, cm_ = cf_transform_terms(ctx)
+        checks += ct
+        meta += cm_
         bad = C.eval_cases(self.prop, "corr_p%d" % os.getpid(), HEADER, checks, shard=200, jobs=4)
         hints = []
         for i in bad[:4]:
             res.add_broken("correspondence", "SHTOperator packing vs coq/C09/ModelSHT.v" if meta[i]["kind"] == "sht_packing"
                            else "operation sequence in one process vs the model on each step's own arguments" if meta[i]["kind"] == "sequence"
+                           else "re.CorrelatedFieldMaker.finalize harmonic transform vs coq/C09/ModelSeq.v (outer_ht)" if meta[i]["kind"] == "cf_transform"
                            else "harmonic operators vs coq/C09/Model.v (exact)", meta[i])
         for i in bad:
-            if meta[i]["kind"] == "sequence":
-                continue            # the sequences are always part of the oracle's cases
+            if meta[i]["kind"] in ("sequence", "cf_transform"):
+                continue            # these are always part of the oracle's cases
             if meta[i]["kind"] == "sht_packing":
                 hints.append({"kind": "sht", "grid": "gl", "lmax": meta[i]["lmax"], "mmax": meta[i]["mmax"]})
             else:
@@ -902,6 +1017,8 @@ class C09(C.Check):
         cases.append({"kind": "config"})
         for seq in gen_sequences(ctx):
             cases.append({"kind": "sequence", "steps": seq})
+        for spec in CF_SPECS:
+            cases.append({"kind": "cf_transform", "spec": spec})
         sht = [{"kind": "sht", "grid": "gl", "lmax": 2, "mmax": 2}, {"kind": "sht", "grid": "gl", "lmax": 3, "mmax": 1},
                {"kind": "sht", "grid": "hp", "nside": 2, "lmax": 3, "mmax": 2},
                {"kind": "sht", "grid": "gl", "lmax": 0, "mmax": 0}]
